@@ -21,7 +21,7 @@ PROBES = {
     'C05': ['reply-coalesced-with-data', 'reply-split', 'disconnect-before-method-reply', 'disconnect-before-request-reply',
             'disconnect-mid-reply', 'disconnect-while-relaying', 'atyp-ipv4', 'atyp-ipv6', 'atyp-domain', 'atyp-unknown',
             'error-code-1..8', 'error-code-9..255', 'method-rejected', 'wrong-version', 'app-wrote', 'resolve', 'resolve-ptr',
-            'server-fin-after-data', 'server-does-not-wait', 'segmented-delivery', 'fault:reset', 'fault:fin'],
+            'server-fin-after-data', 'server-does-not-wait', 'disconnect-sweep', 'segmented-delivery', 'fault:reset', 'fault:fin'],
     'C06': ['target-hostname', 'target-ipv4', 'target-ipv6', 'target-len-255', 'target-len-256+', 'target-nonascii',
             'port-0', 'port-65535', 'port-256..', 'method-reply-split', 'req-connect', 'req-resolve', 'req-resolve-ptr',
             'refused-unencodable'],
@@ -519,24 +519,36 @@ class SocksRun(object):
                 self.conn = sim.net.conns[0]
                 self.conn.transport.on_write = self.on_client_write
                 self.conn.seg_mode = ch.pick(['mixed', 'mixed', 'whole', 'bytewise'], 'segmode')
+                cut = sim.params.get('cut')
+                if cut is not None:
+                    self.conn.cut_at = cut[0]
+                    self.conn.on_cut = lambda kind=cut[1]: self.do_fault(kind)
                 # the greeting was written during makeConnection, before the hook existed
             if not sim.step():
                 break
             self.check_step()
             n += 1
         sim.drain(max_steps=5000, on_step=self.check_step)
+        sim.total_s2c = len(self.peer.sent) if self.peer is not None else 0
+        sim.sweepable = self.prop == 'C05' and self.fault_kind is None and not self.unencodable and self.peer is not None
         self.check_final()
 
     def actions(self):
         acts = []
         if self.peer is not None:
             acts.extend(self.peer.actions())
-        if self.fault_kind and not self.fault_done and self.conn is not None and self.conn.alive and not self.conn.server_gone:
+        if self.fault_kind and self.sim.params.get('cut') is None and not self.fault_done and self.conn is not None \
+                and self.conn.alive and not self.conn.server_gone:
             acts.append((1, 'fault:' + self.fault_kind, self.do_fault))
         return acts
 
-    def do_fault(self):
+    def do_fault(self, kind=None):
         sim = self.sim
+        if kind is not None:
+            self.fault_kind = kind
+            sim.probe('disconnect-sweep')
+        if self.fault_done or self.conn.client_gone:
+            return
         self.fault_done = True
         d = self.conn.total_s2c_delivered
         sim.fault('fault:' + self.fault_kind)
@@ -721,3 +733,14 @@ class SocksRun(object):
 
 def run(sim):
     SocksRun(sim).run()
+
+
+def variants(base_sim, params):
+    """C05: for runs without a random fault, cut the connection at every offset of the server stream (reset and FIN)"""
+    if base_sim.prop != 'C05' or params.get('cut') is not None or not getattr(base_sim, 'sweepable', False):
+        return []
+    out = []
+    for off in range(0, base_sim.total_s2c + 1):
+        out.append({'cut': (off, 'reset')})
+        out.append({'cut': (off, 'fin')})
+    return out
